@@ -1,3 +1,4 @@
+import Generated.Facts
 import SsoModel.Validators
 
 /-!
@@ -189,5 +190,20 @@ example : addrPasses exLower [[97, 64, 120], [42]] [98, 64, 120] = false := by d
 -- addresses+domains: satisfies the address rule only → admitted at login, refused on every request
 example : loginAdmits exLower ⟨[[97, 64, 120]], [[121]], []⟩ [97, 64, 120] .error = true := by decide
 example : requestAdmits exLower ⟨[[97, 64, 120]], [[121]], []⟩ [97, 64, 120] = false := by decide
+
+/-- Tie (T1): the three validators and the runner — call/branch/store skeletons regenerated from the source on every run; the expectations below are
+what the model in this file transliterates. A structural edit of any of these functions breaks this theorem and sends the
+check searching for a failing input. -/
+theorem C11_wiring :
+    Sso.Generated.skel_validators_domain =
+      ["call:ToLower", "range{", "call:HasSuffix", "if{", "return", "}", "}", "return"] ∧
+    Sso.Generated.skel_validators_newDomain =
+      ["call:len", "call:make", "range{", "if{", "call:append", "}", "else{", "call:ToLower", "call:Sprintf", "call:append", "}", "}", "return"] ∧
+    Sso.Generated.skel_validators_address =
+      ["call:ToLower", "range{", "if{", "return", "}", "}", "return"] ∧
+    Sso.Generated.skel_validators_group =
+      ["call:ValidateGroup", "if{", "return", "}", "if{", "store:session.Groups", "return", "}", "return"] ∧
+    Sso.Generated.skel_validators_Run =
+      ["call:len", "call:make", "range{", "call:Validate", "if{", "call:append", "}", "}", "return"] := by decide
 
 end Sso.Validators
